@@ -106,11 +106,15 @@ def lake(args: list[str], timeout: int = 3600, stdin: str | None = None) -> subp
 ERR = re.compile(r"^error: (\S+?\.lean):(\d+):(\d+): (.*)$")
 
 
-def build(targets: list[str], timeout: int = 3600) -> dict:
-    """`lake build targets` → {'ok', 'errors': [{file,line,msg,theorem}], 'log', 'wall_s'}"""
+def build(targets: list[str], timeout: int = 3600, locked: bool = False) -> dict:
+    """`lake build targets` → {'ok', 'errors': [{file,line,msg,theorem}], 'log', 'wall_s'}
+    (`locked=True`: the caller already holds `build_lock`)"""
     t0 = time.time()
-    with build_lock():
+    if locked:
         cp = lake(["build", *targets], timeout=timeout)
+    else:
+        with build_lock():
+            cp = lake(["build", *targets], timeout=timeout)
     log = cp.stdout + cp.stderr
     errors = []
     cache: dict[str, list[dict]] = {}
